@@ -595,6 +595,7 @@ class SimIn:
         self.ncalls = 0
         self._err_left = None
         self.on_read = None       # hook(call ordinal) before the read's seam point
+        self.error_kinds = ("EIO",)   # which OSError subclasses injected read faults cycle through
 
     def fileno(self):
         return self.fd
@@ -624,8 +625,16 @@ class SimIn:
         if self._err_left > 0:
             self._err_left -= 1
             w.fault("in_read_oserror")
-            w.log.add("in.read", "OSError")
-            raise _sim_oserror(errno.EIO, "Input/output error")
+            kind = self.error_kinds[(self.ncalls + self._err_left) % len(self.error_kinds)]
+            w.log.add("in.read", "OSError", kind)
+            if kind == "EAGAIN":
+                e = BlockingIOError(errno.EAGAIN, "Resource temporarily unavailable")
+            elif kind == "EINTR":
+                e = InterruptedError(errno.EINTR, "Interrupted system call")
+            else:
+                e = OSError(errno.EIO, "Input/output error")
+            e.sim = True
+            raise e
         dec = codecs.getincrementaldecoder(self.encoding)("replace")
         out = ""
         while len(out) < n:
